@@ -2,8 +2,11 @@
 """Regenerates /verif/MANIFEST.json from engines.json + tools/props.json (one entry per property)."""
 import json,os
 root=os.path.dirname(os.path.dirname(os.path.abspath(__file__)))
-engines=json.load(open(os.path.join(root,'engines.json')))
-props=json.load(open(os.path.join(root,'tools','props.json')))
+import glob
+engines=[json.load(open(f)) for f in sorted(glob.glob(os.path.join(root,'harness','*','engine.json')))]
+props={}
+for e in engines: props.update(e.get('props_info',{}))
+for k,v in json.load(open(os.path.join(root,'tools','not_applicable.json'))).items(): props[k]={'not_applicable':v}
 ids=[json.loads(l)['id'] for l in open(os.path.join(root,'properties.jsonl')) if l.strip()]
 byprop={}
 for e in engines:
